@@ -172,6 +172,7 @@ Lemma remove_stepK : forall w K b n cwd,
     (unlink (w, n) cwd (pjoin (A P) b) = ok (w', N.succ n) \/
      (exists e, unlink (w, n) cwd (pjoin (A P) b) = fail (w, n) e) /\
      rmdir (w, n) cwd (pjoin (A P) b) = ok (w', N.succ n)) /\
+    ((exists t, K b = Some (KLnk t)) -> unlink (w, n) cwd (pjoin (A P) b) = ok (w', N.succ n)) /\
     St w' (Kdel K b) /\ frame P w w'.
 Proof.
   intros w K b n cwd [Spar Sk] Hne Hp Hpre Hb.
@@ -210,15 +211,168 @@ Proof.
   rewrite Epj.
   destruct Hb as [[t Ht]|[Hdir Hch]].
   - (* a link: unlink succeeds *)
-    exists (upd w ((P ++ d0) ++ [c]) None). split; [|apply Hnew; reflexivity].
-    left. rewrite unlink_plain by auto. simpl fst.
-    rewrite Ht in Kb. apply kind_lnk_get' in Kb. rewrite Kb. reflexivity.
-  - exists (upd w ((P ++ d0) ++ [c]) None). split; [|apply Hnew; reflexivity].
+    assert (Hu : unlink (w, n) cwd (A ((P ++ d0) ++ [c])) = ok (upd w ((P ++ d0) ++ [c]) None, N.succ n)).
+    { rewrite unlink_plain by auto. simpl fst.
+      rewrite Ht in Kb. apply kind_lnk_get' in Kb. rewrite Kb. reflexivity. }
+    exists (upd w ((P ++ d0) ++ [c]) None). split; [left; exact Hu|]. split; [intros _; exact Hu|apply Hnew; reflexivity].
+  - exists (upd w ((P ++ d0) ++ [c]) None). split; [|split; [intros [t Ht]; rewrite Hdir in Ht; discriminate|apply Hnew; reflexivity]].
     right. rewrite Hdir in Kb.
     assert (Ge : get w ((P ++ d0) ++ [c]) = Some (Dir [])).
     { apply dir_empty; [exact Kb|]. intro c'. rewrite <- !app_assoc. rewrite Sk. rewrite app_assoc. apply Hch. }
     split.
     + exists EOS. rewrite unlink_plain by auto. simpl fst. rewrite Ge. reflexivity.
     + rewrite rmdir_plain by auto. simpl fst. rewrite Ge. reflexivity.
+Qed.
+
+Definition Kdel_all (K : kfun) (O : list path) : kfun :=
+  fun q => if existsb (fun b => is_prefix b q) O then None else K q.
+
+Lemma St_ext : forall w K K', (forall q, K q = K' q) -> St w K -> St w K'.
+Proof. intros w K K' E [H1 H2]. split; [exact H1|]. intro q. rewrite H2. apply E. Qed.
+
+Lemma frame_trans : forall w1 w2 w3, frame P w1 w2 -> frame P w2 w3 -> frame P w1 w3.
+Proof. intros w1 w2 w3 F1 F2 r Hr. rewrite (F2 r Hr). apply (F1 r Hr). Qed.
+
+Lemma prefix_same_length : forall a b : path, is_prefix a b = true -> length b <= length a -> a = b.
+Proof.
+  intros a b H L. apply is_prefix_spec in H. destruct H as [r ->].
+  rewrite app_length in L. destruct r; [rewrite app_nil_r; reflexivity|simpl in L; lia].
+Qed.
+
+Lemma remove_allK : forall O w K n cwd,
+  St w K -> NoDup O -> StronglySorted Rlen O ->
+  (forall b, In b O -> b <> [] /\ Forall plain b) ->
+  (forall b, In b O -> forall b0 b1, b = b0 ++ b1 -> b1 <> [] -> K b0 = Some KDir) ->
+  (forall b, In b O -> (exists t, K b = Some (KLnk t)) \/
+                       (K b = Some KDir /\ forall c, K (b ++ [c]) = None \/ In (b ++ [c]) O)) ->
+  exists w' k,
+    remove_obsolete (w, n) cwd (A P) O = ok (w', (n + k)%N) /\
+    St w' (Kdel_all K O) /\ frame P w w'.
+Proof.
+  induction O as [|b O IH]; intros w K n cwd S Hnd Hso Hpl Hpre Hkind.
+  - exists w, 0%N. simpl. rewrite N.add_0_r. split; [reflexivity|]. split; [|intros r _; reflexivity].
+    eapply St_ext; [|exact S]. intro q. reflexivity.
+  - inversion Hnd as [|? ? Hn1 Hn2]; subst. inversion Hso as [|? ? Hs1 Hs2]; subst.
+    destruct (Hpl b (or_introl eq_refl)) as [Hbne Hbpl].
+    (* the head can be removed now *)
+    assert (Hhead : (exists t, K b = Some (KLnk t)) \/ (K b = Some KDir /\ forall c, K (b ++ [c]) = None)).
+    { destruct (Hkind b (or_introl eq_refl)) as [H|[H1 H2]]; [left; exact H|right]. split; [exact H1|].
+      intro c. destruct (H2 c) as [H|[H|H]]; [exact H| |].
+      - exfalso. assert (length (b ++ [c]) = length b) by (rewrite <- H; reflexivity).
+        rewrite app_length in H0. simpl in H0. lia.
+      - exfalso. eapply Forall_forall in Hs2; [|exact H]. unfold Rlen in Hs2. rewrite app_length in Hs2. simpl in Hs2. lia. }
+    destruct (remove_stepK w K b n cwd S Hbne Hbpl (Hpre b (or_introl eq_refl)) Hhead) as [w1 [Hrun [_ [S1 F1]]]].
+    (* the rest, on the updated state *)
+    destruct (IH w1 (Kdel K b) (N.succ n) cwd S1 Hn2 Hs1) as [w2 [k [Hrun2 [S2 F2]]]].
+    + intros b' Hb'. apply Hpl. right. exact Hb'.
+    + intros b' Hb' b0 b1 E Hb1. unfold Kdel.
+      assert (is_prefix b b0 = false) as ->; [|apply (Hpre b' (or_intror Hb') b0 b1 E Hb1)].
+      destruct (is_prefix b b0) eqn:Pr; [|reflexivity]. exfalso.
+      apply is_prefix_length in Pr.
+      eapply Forall_forall in Hs2; [|exact Hb']. unfold Rlen in Hs2.
+      assert (length b' = length b0 + length b1) by (rewrite E, app_length; reflexivity).
+      destruct b1; [congruence|simpl in H; lia].
+    + intros b' Hb'.
+      assert (Hnp : is_prefix b b' = false).
+      { destruct (is_prefix b b') eqn:Pr; [|reflexivity]. exfalso.
+        eapply Forall_forall in Hs2; [|exact Hb']. unfold Rlen in Hs2.
+        apply (prefix_same_length b b' Pr) in Hs2. subst b'. contradiction. }
+      unfold Kdel. rewrite Hnp.
+      destruct (Hkind b' (or_intror Hb')) as [H|[H1 H2]]; [left; exact H|right]. split; [exact H1|].
+      intro c. destruct (is_prefix b (b' ++ [c])) eqn:Pr; [left; reflexivity|].
+      destruct (H2 c) as [H|[H|H]]; [left; exact H| |right; exact H].
+      rewrite H, is_prefix_refl in Pr. discriminate.
+    + exists w2, (1 + k)%N.
+      split; [|split].
+      * simpl remove_obsolete.
+        destruct Hrun as [Hu|[[e Hu] Hr]].
+        -- rewrite Hu. unfold ok at 1. rewrite Hrun2. f_equal. f_equal. lia.
+        -- rewrite Hu. unfold fail at 1. rewrite Hr. unfold ok at 1. rewrite Hrun2. f_equal. f_equal. lia.
+      * eapply St_ext; [|exact S2]. intro q. unfold Kdel_all, Kdel. simpl existsb.
+        destruct (is_prefix b q); simpl; [destruct (existsb _ O); reflexivity|reflexivity].
+      * eapply frame_trans; eauto.
+Qed.
+
+Lemma unlink_allK : forall U w K n cwd,
+  St w K -> NoDup U ->
+  (forall u u', In u U -> In u' U -> is_prefix u u' = true -> u = u') ->
+  (forall u, In u U -> u <> [] /\ Forall plain u) ->
+  (forall u, In u U -> forall b0 b1, u = b0 ++ b1 -> b1 <> [] -> K b0 = Some KDir) ->
+  (forall u, In u U -> exists t, K u = Some (KLnk t)) ->
+  exists w' k,
+    unlink_all (w, n) cwd (A P) U = ok (w', (n + k)%N) /\
+    St w' (Kdel_all K U) /\ frame P w w'.
+Proof.
+  induction U as [|u U IH]; intros w K n cwd S Hnd Hpf Hpl Hpre Hk.
+  - exists w, 0%N. simpl. rewrite N.add_0_r. split; [reflexivity|]. split; [|intros r _; reflexivity].
+    eapply St_ext; [|exact S]. intro q. reflexivity.
+  - inversion Hnd as [|? ? Hn1 Hn2]; subst.
+    destruct (Hpl u (or_introl eq_refl)) as [Hune Hupl].
+    destruct (remove_stepK w K u n cwd S Hune Hupl (Hpre u (or_introl eq_refl)) (or_introl (Hk u (or_introl eq_refl))))
+      as [w1 [_ [Hun [S1 F1]]]].
+    specialize (Hun (Hk u (or_introl eq_refl))).
+    assert (Hnp : forall u' b0, In u' U -> is_prefix b0 u' = true -> is_prefix u b0 = false).
+    { intros u' b0 Hu' Hb0. destruct (is_prefix u b0) eqn:Pr; [|reflexivity]. exfalso.
+      apply is_prefix_spec in Pr. destruct Pr as [r1 ->]. apply is_prefix_spec in Hb0. destruct Hb0 as [r2 ->].
+      assert (u = (u ++ r1) ++ r2).
+      { apply Hpf; [left; reflexivity|right; exact Hu'|]. apply is_prefix_spec. exists (r1 ++ r2). rewrite app_assoc. reflexivity. }
+      rewrite <- H in Hu'. contradiction. }
+    destruct (IH w1 (Kdel K u) (N.succ n) cwd S1 Hn2) as [w2 [k [Hrun2 [S2 F2]]]].
+    + intros a a' Ha Ha'. apply Hpf; right; assumption.
+    + intros a Ha. apply Hpl. right. exact Ha.
+    + intros a Ha b0 b1 E Hb1. unfold Kdel. rewrite (Hnp a b0 Ha) by (apply is_prefix_spec; eauto).
+      apply (Hpre a (or_intror Ha) b0 b1 E Hb1).
+    + intros a Ha. unfold Kdel. rewrite (Hnp a a Ha (is_prefix_refl a)). apply Hk. right. exact Ha.
+    + exists w2, (1 + k)%N. split; [|split].
+      * simpl unlink_all. rewrite Hun. unfold ok at 1. rewrite Hrun2. f_equal. f_equal. lia.
+      * eapply St_ext; [|exact S2]. intro q. unfold Kdel_all, Kdel. simpl existsb.
+        destruct (is_prefix u q); simpl; [destruct (existsb _ U); reflexivity|reflexivity].
+      * eapply frame_trans; eauto.
+Qed.
+
+(* phase 3 on pointwise states *)
+Definition Kadd_all (cwd : path) (K : kfun) (L : list (path * path)) : kfun :=
+  fold_left (fun K e => Kadd K (fst e) (link_target cwd (A P) (key_of e) (snd e))) L K.
+
+Lemma link_allK : forall L w K n cwd lk,
+  St w K ->
+  (forall e, In e L -> Forall tok (fst e)) -> NoDup (map fst L) ->
+  (forall e q, In e L -> is_prefix q (fst e) = true -> K q = Some KDir \/ K q = None) ->
+  (forall e, In e L -> K (key_of e) = None) ->
+  (forall e, In e L -> alookup (join_sep (key_of e)) lk = Some (snd e)) ->
+  exists w' k,
+    link_all (w, n) cwd (A P) lk (map key_of L) = ok (w', (n + k)%N) /\
+    St w' (Kadd_all cwd K L) /\ frame P w w'.
+Proof.
+  induction L as [|e L IH]; intros w K n cwd lk S Ht Hnd Hpre Hfree Hlk.
+  - exists w, 0%N. simpl. rewrite N.add_0_r. split; [reflexivity|]. split; [exact S|intros r _; reflexivity].
+  - inversion Hnd as [|? ? Hn1 Hn2]; subst.
+    assert (He : Forall tok (fst e)) by (apply Ht; left; reflexivity).
+    destruct (link_stepK w K (fst e) (link_target cwd (A P) (key_of e) (snd e)) n cwd S He) as [w1 [k1 [M [S1 F1]]]].
+    { intros q Hq. apply (Hpre e q (or_introl eq_refl) Hq). }
+    { apply (Hfree e). left. reflexivity. }
+    destruct (IH w1 (Kadd K (fst e) (link_target cwd (A P) (key_of e) (snd e))) (N.succ (n + k1)) cwd lk S1) as [w2 [k2 [M2 [S2 F2]]]].
+    + intros e' He'. apply Ht. right. exact He'.
+    + exact Hn2.
+    + intros e' q He' Hq. unfold Kadd.
+      match goal with |- (if ?c then _ else _) = _ \/ _ => assert (c = false) as -> end.
+      { apply path_eqb_false. eapply toks_no_job_last; [apply (Ht e' (or_intror He'))|exact Hq]. }
+      destruct (is_prefix q (fst e)); [left; reflexivity|apply (Hpre e' q (or_intror He') Hq)].
+    + intros e' He'. unfold Kadd, key_of.
+      match goal with |- (if ?c then _ else _) = _ => assert (c = false) as -> end.
+      { apply path_eqb_false. intro E. apply app_inj_tail in E. destruct E as [E _].
+        apply Hn1. rewrite <- E. apply in_map. exact He'. }
+      match goal with |- (if ?c then _ else _) = _ => assert (c = false) as -> end.
+      { apply not_true_is_false. intro Pr. eapply (toks_no_job_last (fst e) (fst e' ++ [s_job])); eauto. }
+      apply (Hfree e'). right. exact He'.
+    + intros e' He'. apply Hlk. right. exact He'.
+    + exists w2, (N.succ k1 + k2)%N. split; [|split].
+      * simpl map. simpl link_all. rewrite (Hlk e) by (left; reflexivity).
+        match goal with |- context [make_link ?a ?b ?c ?d] =>
+          replace (make_link a b c d) with (ok (w1, N.succ (n + k1)))
+            by (symmetry; etransitivity; [|exact M]; f_equal; apply (pjoin_key P (fst e) He)) end.
+        unfold ok at 1. rewrite M2. f_equal. f_equal. lia.
+      * exact S2.
+      * eapply frame_trans; eauto.
 Qed.
 End Inc.
